@@ -101,3 +101,23 @@ claim("C18",
       "closed flag) are verified structurally. Leak freedom over all API histories (aliasing through containers, element-wise release loops) and the temp-file "
       "namespace are not decided; teardown order versus the handler thread is decided in C13.R3.",
       "Trusts T-own (which calls acquire/release/consume/borrow), inference of consuming parameters from 'parameter stored into an object', loop bound 1.")
+
+claim("C13",
+      "must-lockset dataflow, condition-variable predicate-store discipline against T-cv, lock pairing/nesting graph, join-before-use of handler-written fields (role effect sets from the callback registries), path rules for dispatch/creation/delivery/exits/queue tail",
+      "Decides: every cond-wait sits in a predicate loop with its mutex held; every store to a wait-predicate field holds the mutex and is signalled within the "
+      "critical section unless T-cv lists it as non-enabling (lost wake-ups); locks are paired on every path, nested acquisitions form the one listed acyclic edge, "
+      "no join holds a lock the joined thread takes; caller-role accesses to handler-written state are dominated by the join, the no-pool edge or the verified "
+      "joined flag; the writer dispatches ordered; worker creation is counted under the pool mutex only when no idle thread exists and the maximum is not reached; "
+      "each delivered result is read-and-cleared once and passed to the callback once; workers and the result thread leave only on their termination conditions; "
+      "the result queue's tail pointer is advanced on append and re-anchored when the queue empties. Deadlock freedom under all schedules and byte identity of "
+      "outputs are model-checking questions and are not decided.",
+      "Trusts T-cv/T-lock (which stores are non-enabling and why), pthread semantics, lock objects told apart by base expression inside one function, loop bound 1.")
+
+claim("C14",
+      "who-may-write rules over whole-library mod/ref for the immutable reader-side records, disjointness of role effect sets (caller/worker/handler) derived from the callback registries, must-lockset discipline per pool field against T-lock, single pre-main writer of the CRC dispatch pointer",
+      "Decides completely the immutability clause: reader, block, source and iterator-handle fields are stored only by their constructors/destructors, nothing reachable "
+      "from the iterator entry points writes reader state or the mapped bytes, and my_crc32c is the library's only mutable file-scope variable. Decides: worker jobs modify "
+      "nothing on the shared writer/sorter, worker and handler effect sets do not conflict, the dispatcher does not touch a job after handing it over, caller-side accesses "
+      "to handler-written fields are post-join (C13.R3 re-run); every access to a thread/resultq/threadpool field satisfies its lock discipline or a counted listed exception; "
+      "the CRC dispatch pointer is written only by the constructor-attributed detection. User callbacks, third-party libraries and the allocator are not decided.",
+      "Trusts T-lock/T-roles exceptions (each one named symbol with a reason), type-based field effects (no aliasing between different record types), the build's constructor support.")
